@@ -26,18 +26,18 @@ type kp = []string
 
 var properties = map[string]propSpec{
 	"C01": {Rules: rl{ruleMutateRelay, ruleCascade, ruleSnapshot, ruleErrorDiscipline}, Keep: kp{"C1", "E4", "C7", "ERR"}},
-	"C02": {Rules: rl{ruleMutateRelay, ruleAnswers, ruleSenderExcluded, ruleDecoratorForward, ruleBroadcastShape, ruleRelaySync}, Keep: kp{"C1", "B5", "C2", "A2", "C3", "C6"}},
-	"C03": {Rules: rl{ruleSenderExcluded, ruleJoinedGuard, rulePairedState, ruleDispatchTotal, ruleAnswers, ruleModuleInit}, Keep: kp{"J1", "J2", "E9", "A1", "B5", "J3"}},
+	"C02": {Rules: rl{ruleMutateRelay, ruleAnswers, ruleSenderExcluded, ruleDecoratorForward, ruleBroadcastShape, ruleRelaySync}, Keep: kp{"C1", "B5", "B7", "C2", "A2", "C3", "C6"}},
+	"C03": {Rules: rl{ruleSenderExcluded, ruleJoinedGuard, rulePairedState, ruleDispatchTotal, ruleAnswers, ruleModuleInit, ruleRegistry, ruleIDGenerator, ruleLeaveCallers}, Keep: kp{"J1", "J2", "E9", "A1", "B5", "J3", "E7", "D3", "E2"}},
 	"C04": {Rules: rl{ruleDispatchTotal, ruleAnswers, ruleJoinedGuard, ruleDecoratorForward, ruleModuleCleanup}, Keep: kp{"A1", "B", "J2", "A2", "E3"}},
-	"C05": {Rules: rl{ruleOwnerGuard, ruleAnswers, ruleSenderExcluded, ruleIDGenerator}, Keep: kp{"D1", "B5", "J1", "D3"}},
+	"C05": {Rules: rl{ruleOwnerGuard, ruleAnswers, ruleSenderExcluded, ruleIDGenerator, ruleIDSources}, Keep: kp{"D1", "B5", "J1", "D3", "D2", "D5"}},
 	"C06": {Rules: rl{ruleLeaveComplete, ruleLeaveCallers, ruleModuleCleanup, ruleCascade, ruleDecoratorForward, ruleMutateRelay, ruleSnapshot, ruleSubscriptions, ruleStoreContracts}, Keep: kp{"E1", "E2", "E3", "E4", "E6", "E9", "A2", "C1", "C7", "S-UnsubscribeAll", "S-DeleteByEntity"}},
-	"C07": {Rules: rl{ruleLeaveComplete, ruleLeaveCallers}, Keep: kp{"E1", "E2", "E6"}},
+	"C07": {Rules: rl{ruleLeaveComplete, ruleLeaveCallers, ruleRegistry, ruleIDGenerator}, Keep: kp{"E1", "E2", "E6", "E7", "D3"}},
 	"C08": {Rules: rl{ruleDecoratorForward, rulePBNil, ruleFunnelOnce, ruleGaugePair, ruleWaitFor, rulePanicContainment}, Keep: kp{"A2", "G1", "E5", "G5", "G6", "F4", "G2"}},
 	"C09": {Rules: rl{ruleGuardedBy, ruleNoEscape, ruleLockOrder, ruleLockPairing, ruleSplitCriticalSection, ruleWaitFor}},
-	"C10": {Rules: rl{ruleIDGenerator, ruleStoreContracts, ruleSplitCriticalSection}, Keep: kp{"D3", "D4", "E8a"}},
-	"C11": {Rules: rl{rulePBNil, ruleSnapshot, ruleAnswers, ruleOwnerGuard}, Keep: kp{"G1", "C11-pose", "B5", "D1"}},
+	"C10": {Rules: rl{ruleIDGenerator, ruleStoreContracts, ruleSplitCriticalSection, ruleIDSources, ruleEntityActions, ruleRegistry}, Keep: kp{"D3", "D4", "E8a", "D5", "E7"}},
+	"C11": {Rules: rl{rulePBNil, ruleSnapshot, ruleAnswers, ruleOwnerGuard}, Keep: kp{"G1", "C11-pose", "B5", "B7", "D1"}},
 	"C12": {Rules: rl{ruleStoreContracts, ruleCascade, ruleErrorDiscipline, ruleSplitCriticalSection}, Keep: kp{"S-", "D4", "E4", "ERR", "E8a"}},
-	"C13": {Rules: rl{ruleNotifyGated, ruleSenderExcluded, ruleSubscriptions}, Keep: kp{"C5", "C2", "S-"}},
+	"C13": {Rules: rl{ruleNotifyGated, ruleSenderExcluded, ruleSubscriptions, ruleLeaveComplete}, Keep: kp{"C5", "C2", "S-", "E1"}},
 	"C14": {Rules: rl{ruleBroadcastShape, ruleSenderExcluded, ruleCustomMessage, ruleRelaySync}, Keep: kp{"C3", "J6", "C2", "H1", "H4", "C6"}},
 	"C16": {Rules: rl{ruleEntityActions, ruleSnapshot, ruleOwnerGuard, ruleModuleInit, ruleModuleCleanup}, Keep: kp{"H3", "S-", "D5", "C7", "D1", "J4", "J3", "E3"}},
 	"C17": {Rules: rl{ruleFlagWrap}},
